@@ -291,7 +291,8 @@ fn strategy(prop: Prop, camp: Campaign) -> impl Strategy<Value = Case> {
 }
 
 fn run_campaign(prop: Prop, camp: &Campaign, tier: &str, seed: u64, ci: usize, stop: &AtomicBool, known: &Known) -> Agg {
-    let cases = if tier == "thorough" { camp.cases.1 } else { camp.cases.0 };
+    // the quick figures in plan.rs are per worker and were sized for a ~1 s run; the quick tier runs three times that
+    let cases = if tier == "thorough" { camp.cases.1 } else { camp.cases.0 * 3 };
     let scale: f64 = std::env::var("VERIF_SCALE").ok().and_then(|s| s.parse().ok()).unwrap_or(1.0);
     let cases = ((cases as f64) * scale).max(1.0) as u32;
     let mut total = Agg::new();
